@@ -32,6 +32,7 @@ MV gen_mv(Rng& r, const GenProfile& p, unsigned depth = 0);
 void nest_chain(const std::vector<uint64_t>& kinds, size_t depth, unsigned leaf_kind, std::vector<uint8_t>& out, unsigned* total_levels);
 unsigned nest_leaf_levels(unsigned leaf_kind);
 MV deep_mv(Rng& r, unsigned depth);     // a value nested `depth` containers deep (tags, arrays, maps, indefinite flavours)
+void gen_encode(Rng& r, const MV& v, std::vector<uint8_t>& out);   // reference encoding; a quarter of the items with non-preferred (wider than needed) heads on lengths, counts and tag numbers
 MV dense_mv(Rng& r);                     // a wide container whose members all occupy one byte
 
 // workloads (one file each)
